@@ -1,8 +1,11 @@
 #!/bin/bash
-# offline setup: make sure hypothesis is importable in /venv, run harness self-tests
+# offline setup: hypothesis present in /venv, atheris into .deps (coverage-guided thorough campaigns), harness self-tests
 cd "$(dirname "$0")"
 export PIP_NO_INDEX=1
 /venv/bin/python -c "import hypothesis" 2>/dev/null || /venv/bin/pip install --no-index --find-links /opt/veriftools/wheels hypothesis || exit 1
+if ! PYTHONPATH="$PWD/.deps" /venv/bin/python -c "import atheris" 2>/dev/null; then
+  /venv/bin/pip install -q --no-index --find-links /opt/veriftools/wheels --target "$PWD/.deps" atheris || echo "WARNING: atheris not installed; the coverage-guided part of the thorough tier will be skipped"
+fi
 export PYTHONPATH="$PWD" PYTHONDONTWRITEBYTECODE=1
 /venv/bin/python - <<'PY' || exit 1
 import sys
